@@ -63,7 +63,36 @@ type gcase struct {
 	Want *tyutil.Term            `json:"want,omitempty"`
 }
 
-var impls = []string{"asm.inst", "ir.inst(parsed)", "ir.NewGetElementPtr", "asm.cexpr", "constant.NewGetElementPtr", "asm.alias", "gep.ResultType"}
+// Observation points. The first seven are taken case by case (one module per case, fresh
+// type objects). The "+reread" points read the type objects reported there once more after
+// ALL cases have been computed. The "(batch)" points share state between cases, as real
+// programs do: one module per element type that contains every case over it (bases in both
+// address spaces reach the same identified-struct and field type objects), parsed once; and
+// the constructors and the walker fed from ONE interning builder (the library's singletons
+// types.I8, ... included). Their types are read after the last case. "printed(batch)" is
+// llvm-as's verdict on those modules as the library prints them (uses are spelled with the
+// reported type).
+var baseImpls = []string{"asm.inst", "ir.inst(parsed)", "ir.NewGetElementPtr", "asm.cexpr", "constant.NewGetElementPtr", "asm.alias", "gep.ResultType"}
+var impls = func() []string {
+	out := append([]string{}, baseImpls...)
+	for _, im := range baseImpls {
+		out = append(out, im+"+reread")
+	}
+	for _, im := range baseImpls {
+		out = append(out, im+"(batch)")
+	}
+	return append(out, "printed(batch)")
+}()
+
+// baseImpl is the case-by-case observation point a batch or re-read point repeats.
+func baseImpl(im string) string {
+	for _, suf := range []string{"+reread", "(batch)"} {
+		if i := strings.Index(im, suf); i >= 0 && im != "printed(batch)" {
+			return im[:i]
+		}
+	}
+	return im
+}
 
 // --- rendering (independent of the library's printer) -------------------------
 
@@ -300,7 +329,11 @@ type objects struct {
 }
 
 func (e *env) objects(c *gcase) *objects {
-	o := &objects{b: tyutil.NewBuilder(e.uni, false)}
+	return e.objectsWith(tyutil.NewBuilder(e.uni, false), c)
+}
+
+func (e *env) objectsWith(b *tyutil.Builder, c *gcase) *objects {
+	o := &objects{b: b}
 	o.elem = o.b.Type(c.Elem)
 	o.base = o.b.Type(c.Base)
 	o.h = ir.NewGlobalDef("h", constant.NewInt(types.I8, 0))
@@ -488,10 +521,223 @@ func (e *env) evaluate(c *gcase, valid [3]bool) *result {
 			})
 		}
 	}
-	for _, im := range impls {
-		r.class[im] = r.out[im].Class(c.Want)
-	}
 	return r
+}
+
+// batch adds the observations that share state between the cases (see impls).
+func (e *env) batch(rep *mbt.Report, results []*result, valid [][3]bool) {
+	// constructors and walker over one interning builder
+	b := tyutil.NewInternBuilder(e.uni)
+	for n, r := range results {
+		c := r.c
+		var o *objects
+		if _, p := mbt.Guard(func() { o = e.objectsWith(b, c) }); p {
+			continue
+		}
+		if valid[n][0] {
+			r.out["ir.NewGetElementPtr(batch)"] = tyutil.Observe(func() (types.Type, error) {
+				return ir.NewGetElementPtr(o.elem, o.baseV, o.idxV...).Type(), nil
+			})
+		}
+		if valid[n][1] {
+			r.out["constant.NewGetElementPtr(batch)"] = tyutil.Observe(func() (types.Type, error) {
+				return constant.NewGetElementPtr(o.elem, o.baseC, o.idxC...).Type(), nil
+			})
+		}
+		if valid[n][0] || valid[n][1] {
+			r.out["gep.ResultType(batch)"] = tyutil.Observe(func() (types.Type, error) {
+				return verifshim.GepResultType(o.elem, o.base, o.shimIx), nil
+			})
+		}
+	}
+	// one module per element type with every case the parser read on its own
+	groups := map[int][]int{}
+	for n, r := range results {
+		groups[e.elemNo[r.c.Elem.LL()]] = append(groups[e.elemNo[r.c.Elem.LL()]], n)
+	}
+	type unit struct {
+		n    int
+		form int
+	}
+	var geps []*ir.InstGetElementPtr
+	var gepOf []int
+	printed := 0
+	for i := range e.elems {
+		var us []unit
+		for _, n := range groups[i] {
+			r := results[n]
+			if valid[n][0] && r.out["asm.inst"].Type != nil {
+				us = append(us, unit{n, 0})
+			}
+			if valid[n][1] && r.out["asm.cexpr"].Type != nil {
+				us = append(us, unit{n, 1})
+			}
+			if valid[n][2] && r.out["asm.alias"].Type != nil {
+				us = append(us, unit{n, 2})
+			}
+		}
+		text := func(u unit) string {
+			c := results[u.n].c
+			switch u.form {
+			case 0:
+				return c.instUnit(fmt.Sprintf("fi%d", u.n))
+			case 1:
+				return c.cexprUnit(fmt.Sprintf("fc%d", u.n), i)
+			}
+			return c.aliasUnit(fmt.Sprintf("a%d", u.n), i)
+		}
+		formImpl := []string{"asm.inst(batch)", "asm.cexpr(batch)", "asm.alias(batch)"}
+		var mods []*ir.Module
+		var parse func(lo, hi int)
+		parse = func(lo, hi int) {
+			var sb strings.Builder
+			sb.WriteString(e.uni.Defs() + "@h = global i8 0\n" + e.globals(i, e.elems[i]))
+			for _, u := range us[lo:hi] {
+				sb.WriteString(text(u))
+			}
+			var m *ir.Module
+			var err error
+			msg, p := mbt.Guard(func() { m, err = asm.ParseString("c07-all.ll", sb.String()) })
+			if p || err != nil {
+				if hi-lo > 1 {
+					mid := (lo + hi) / 2
+					parse(lo, mid)
+					parse(mid, hi)
+					return
+				}
+				o := tyutil.Outcome{Panic: msg}
+				if !p {
+					o = tyutil.Outcome{Err: err.Error()}
+				}
+				results[us[lo].n].out[formImpl[us[lo].form]] = o
+				return
+			}
+			mods = append(mods, m)
+		}
+		if len(us) > 0 {
+			parse(0, len(us))
+		}
+		for _, m := range mods {
+			for _, f := range m.Funcs {
+				var n int
+				switch {
+				case strings.HasPrefix(f.Name(), "fi"):
+					fmt.Sscanf(f.Name(), "fi%d", &n)
+					results[n].out["asm.inst(batch)"] = tyutil.Observe(func() (types.Type, error) {
+						in, err := firstInstOf(f)
+						if err != nil {
+							return nil, err
+						}
+						g, ok := in.(*ir.InstGetElementPtr)
+						if !ok {
+							return nil, fmt.Errorf("parsed instruction is %T", in)
+						}
+						geps, gepOf = append(geps, g), append(gepOf, n)
+						return g.Typ, nil
+					})
+				case strings.HasPrefix(f.Name(), "fc"):
+					fmt.Sscanf(f.Name(), "fc%d", &n)
+					results[n].out["asm.cexpr(batch)"] = tyutil.Observe(func() (types.Type, error) {
+						in, err := firstInstOf(f)
+						if err != nil {
+							return nil, err
+						}
+						st, ok := in.(*ir.InstStore)
+						if !ok {
+							return nil, fmt.Errorf("parsed instruction is %T", in)
+						}
+						return st.Src.Type(), nil
+					})
+				}
+			}
+			for _, a := range m.Aliases {
+				var n int
+				fmt.Sscanf(a.Name(), "a%d", &n)
+				al := a
+				results[n].out["asm.alias(batch)"] = tyutil.Observe(func() (types.Type, error) { return al.Typ, nil })
+			}
+			// the library's print of the module, judged by llvm-as
+			var defs []*ir.Func
+			for _, f := range m.Funcs {
+				if len(f.Blocks) > 0 {
+					defs = append(defs, f)
+				}
+			}
+			leaves := 0
+			var check func(lo, hi int, withAliases bool)
+			check = func(lo, hi int, withAliases bool) {
+				if leaves > 24 {
+					return
+				}
+				sub := &ir.Module{TypeDefs: m.TypeDefs, Globals: m.Globals, Funcs: defs[lo:hi]}
+				if withAliases {
+					sub.Aliases = m.Aliases
+				}
+				var txt string
+				msg, p := mbt.Guard(func() { txt = sub.String() })
+				acc, diag := false, "the printer panics: "+msg
+				if !p {
+					acc, diag = llvmoracle.Accepts(txt)
+				}
+				if acc {
+					printed += hi - lo
+					return
+				}
+				if withAliases {
+					check(lo, hi, false)
+					if leaves == 0 { // the functions alone are fine: an alias is printed wrongly
+						leaves++
+						for _, a := range m.Aliases {
+							var n int
+							fmt.Sscanf(a.Name(), "a%d", &n)
+							one := &ir.Module{TypeDefs: m.TypeDefs, Globals: m.Globals, Aliases: []*ir.Alias{a}}
+							if acc, d := llvmoracle.Accepts(one.String()); !acc {
+								results[n].out["printed(batch)"] = tyutil.Outcome{Err: "llvm-as rejects the printed alias: " + d + "\n" + a.LLString()}
+								break
+							}
+						}
+					}
+					return
+				}
+				if hi-lo > 1 {
+					mid := (lo + hi) / 2
+					check(lo, mid, false)
+					check(mid, hi, false)
+					return
+				}
+				leaves++
+				var n int
+				fmt.Sscanf(defs[lo].Name()[2:], "%d", &n)
+				results[n].out["printed(batch)"] = tyutil.Outcome{Err: "llvm-as rejects the printed function: " + diag + "\n" + defs[lo].LLString()}
+			}
+			check(0, len(defs), true)
+		}
+	}
+	rep.Extra["functions_printed_and_accepted_by_llvm_as"] = printed
+	// recomputation inside the shared modules: clear every cached type, then compute them all
+	for _, g := range geps {
+		g.Typ = nil
+	}
+	for k, g := range geps {
+		gg := g
+		results[gepOf[k]].out["ir.inst(parsed)(batch)"] = tyutil.Observe(func() (types.Type, error) { return gg.Type(), nil })
+	}
+	// everything reported so far is read once more, now that all cases have been computed
+	for _, r := range results {
+		for _, im := range baseImpls {
+			r.out[im+"+reread"] = r.out[im].Reread()
+			if o := r.out[im+"(batch)"]; o.Raw != nil {
+				r.out[im+"(batch)"] = o.Reread()
+			}
+		}
+	}
+}
+
+func firstInstOf(f *ir.Func) (ir.Instruction, error) {
+	if len(f.Blocks) != 1 || len(f.Blocks[0].Insts) < 1 {
+		return nil, fmt.Errorf("unexpected shape of the parsed function")
+	}
+	return f.Blocks[0].Insts[0], nil
 }
 
 // --- minimisation and signatures ------------------------------------------------
@@ -729,6 +975,12 @@ func process(rep *mbt.Report, uni tyutil.Universe, cases []*gcase, minimiseSigs 
 	// (a)+(c) the library
 	results := make([]*result, len(cases))
 	llvmoracle.Parallel(len(cases), func(n int) { results[n] = e.evaluate(cases[n], valid[n]) })
+	e.batch(rep, results, valid)
+	for _, r := range results {
+		for _, im := range impls {
+			r.class[im] = r.out[im].Class(r.c.Want)
+		}
+	}
 	table := map[string]*result{}
 	for _, r := range results {
 		table[r.c.key()] = r
@@ -747,6 +999,10 @@ func process(rep *mbt.Report, uni tyutil.Universe, cases []*gcase, minimiseSigs 
 			perImpl[im]++
 			rep.TracesValidated++
 			if cls == "=" {
+				continue
+			}
+			// a batch / re-read observation that fails exactly as the case-by-case one adds nothing
+			if base := baseImpl(im); base != im && r.class[base] == cls {
 				continue
 			}
 			failing[im]++
